@@ -8,7 +8,7 @@
       [strings_domain]  rules non-empty and blank-free, species labels in [A-Za-z][A-Za-z0-9_]*.
       [rxns_of H]       the stored reactions (rule, reactants, products) as a list; multiset equality is [≡ₚ]. *)
 From stdpp Require Import gmap strings sets.
-From SK Require Import lib.Tok model.C15_Model proof.C15_Proof model.C16_Model proof.C16_Defs proof.C16_Chars proof.C16_Str.
+From SK Require Import lib.Tok model.C15_Model proof.C15_Proof model.C16_Model proof.C16_Defs proof.C16_Chars proof.C16_Str proof.C16_Sg.
 Local Open Scope string_scope.
 
 (** every network reachable through the store operations (C15_inv_reachable) satisfies the decidable premise used below *)
@@ -44,3 +44,19 @@ Theorem C16_label_domain_refuted :
              ∧ ¬ rxns_of (rxns_to_hypergraph (hypergraph_to_rxn_strings H true false true) "r" true false).1 ≡ₚ rxns_of H.
 Proof. exact label_domain_refuted. Qed.
 Print Assumptions C16_label_domain_refuted.
+
+(** ** Species graph *)
+
+(** for every network whose reactions all have reactants and products (no other premise), whatever the rule-picking
+    function, default rule and mol flags: collapsing to the species graph and reconstructing raises no error and returns
+    the same ids, each with its own reactant and product coefficient maps — also when several reactions share a species
+    pair (one arc, per-reaction maps [stoich_r_map]/[stoich_p_map]).  Rules are not claimed (arcs shared by reactions
+    with different rules merge the rule sets: [ex_sg_rules_merged]); two-sidedness is needed ([ex_sg_two_sided_needed]). *)
+Theorem C16_species_graph_roundtrip :
+  ∀ (pick : gset string → string) (default_rule : string) (include_mol mol_attr : bool) (H : net),
+  two_sided H →
+  (species_graph_to_hypergraph pick default_rule mol_attr (hypergraph_to_species_graph include_mol H)).2 = None ∧
+  stoich_of <$> edges (species_graph_to_hypergraph pick default_rule mol_attr (hypergraph_to_species_graph include_mol H)).1
+    = stoich_of <$> edges H.
+Proof. exact species_graph_roundtrip. Qed.
+Print Assumptions C16_species_graph_roundtrip.
